@@ -24,6 +24,8 @@ def run(project, rep):
     rep.rule("K-R6", "the date held is the date read from the cached profile: offset plumbing of the DateTime reader (Z-R4) and sign of the offset minutes (Z-R5) - a held date read an hour off lets an older profile pass the not-older test")
     rep.run(Z.z_r4_conversion, project, rep)
     rep.run(Z.z_r5_offset_sign, project, rep)
+    rep.run(Z.z_r12_zone_table_consistent, project, rep)
     from .. import rules_parser as P
     rep.rule("K-R7", "malformed data fails the call before the cache is touched: a response cut short is refused by the parser - the builder never supplies end tags the data did not contain (P-R10), so a truncated profile cannot be cached as if complete")
     rep.run(P.p_r10_no_invented_end, project, rep)
+    rep.run_only(("P-R1",), P.p_rules, project, rep, constructs=("TreeBuilder.end:",))
